@@ -75,7 +75,8 @@ Definition code_clear_late : async_code :=
      ac_build_guard := ac_build_guard code; ac_build_exn := ac_build_exn code;
      ac_handle_by_reply_tid := ac_handle_by_reply_tid code; ac_lost_clears := ac_lost_clears code;
      ac_lost_clear_first := false; ac_lost_loop := ac_lost_loop code; ac_lost_exn := ac_lost_exn code;
-     ac_unit_default := ac_unit_default code |}.
+     ac_unit_default := ac_unit_default code; ac_unit_wild := ac_unit_wild code;
+     ac_unit_wild_on_frame := ac_unit_wild_on_frame code |}.
 
 Lemma reentrant_errback_needs_clear_first :
   (let σ := arun code_clear_late VDict [Made; ExecuteE; Lost] (init_state code_clear_late) in
@@ -89,3 +90,18 @@ Lemma reentrant_callback_ok :
   let σ := arun code VDict [Made; ExecuteC; Reply 1 10; Reply 2 20] (init_state code) in
   a_pending σ = [] /\ a_fired σ = [(1, OCb 1 10); (2, OCb 2 20)] /\ a_sent σ = [(1, 1); (2, 2)].
 Proof. vm_compute. repeat split; reflexivity. Qed.
+
+(* requests to the gateway (0xFF), unit 0 and units 1, 2 outstanding, all replies in one segment:
+   a segment that STARTS with a wildcard unit delivers everything; one that starts with unit 1
+   delivers only the unit-1 reply (the mixed-unit finding) *)
+Lemma wildcard_first_delivers_all :
+  let σ := arun code VDict [Made; Execute; Execute; Execute; Execute;
+                            Segment [(255, 1, 11); (1, 2, 12); (0, 3, 13); (2, 4, 14)]] (init_state code) in
+  a_pending σ = [] /\ a_fired σ = [(1, OCb 1 11); (2, OCb 2 12); (3, OCb 3 13); (4, OCb 4 14)].
+Proof. vm_compute. split; reflexivity. Qed.
+
+Lemma plain_unit_first_filters :
+  let σ := arun code VDict [Made; Execute; Execute; Execute; Execute;
+                            Segment [(1, 2, 12); (255, 1, 11); (0, 3, 13); (2, 4, 14)]] (init_state code) in
+  a_pending σ = [(1, 1); (3, 3); (4, 4)] /\ a_fired σ = [(2, OCb 2 12)].
+Proof. vm_compute. split; reflexivity. Qed.
